@@ -138,7 +138,11 @@ func (w *World) exprTextAt(pos token.Pos) string {
 			if _, isId := x.(*ast.Ident); isId {
 				continue
 			}
-			return trimLong(types.ExprString(x), 80)
+			es := types.ExprString(x)
+			if strings.HasPrefix(es, "(ast:") || strings.HasPrefix(es, "(bad") {
+				continue
+			}
+			return trimLong(es, 80)
 		case *ast.AssignStmt, *ast.ExprStmt, *ast.ReturnStmt, *ast.RangeStmt, *ast.IncDecStmt, *ast.DeferStmt, *ast.GoStmt:
 			return trimLong(nodeString(sh.ld.Prog.Fset, n), 80)
 		}
